@@ -18,7 +18,7 @@ def run(ctx):
                      "natural histories; monitor: cancellations == hopeless offered requests in order, no member of a batch with "
                      "now + runtime > deadline, no hopeless request placed; distinct/non-trivial as in C15")
     dist_all = {}
-    for mode, n in (("tight", 160 if quick else 2000), ("natural", 80 if quick else 1000)):
+    for mode, n in (("tight", 130 if quick else 2000), ("natural", 70 if quick else 1000)):
         hs, impls = c15.generate(ctx, n, size, mode)
         c15.strip(hs, impls)
         nt, dist = c15.stats(ctx, hs, impls)
